@@ -123,6 +123,30 @@ def showFmt : Format.FmtRes → String
   | .err _ => "err"
   | .panic => "panic"
 
+/-- the run of `verif_hooks::ord::heap_run`: push all, pop `n`, then drain; same report line -/
+def heapRun (d : Int) (k : Int) (dec : Bool) (n : Nat) (xs : List Int) : String :=
+  let le : Sort.Cmp String Int := fun i a b =>
+    if (i : Int) == k then .error "E" else .ok (if dec then decide (a / d ≤ b / d) else decide (a / d ≥ b / d))
+  let drain (data : List Int) (cnt : Nat) : String :=
+    match Sort.Heap.popN le (data.length + 1) data [] cnt with
+    | .ok (ps, _) _ => showInts ps
+    | _ => "drain-failed"
+  match Sort.Heap.pushAll le [] xs 0 with
+  | .panic => "panic"
+  | .fail _ buf cnt => s!"fail popped - len {buf.length} drained {drain buf cnt} n {cnt}"
+  | .ok data cnt =>
+    -- pops one at a time so that the pops made before a failure are kept
+    let rec go (fuel : Nat) (data : List Int) (acc : List Int) (cnt : Nat) : String :=
+      match fuel with
+      | 0 => s!"ok popped {showInts acc.reverse} len {data.length} drained {drain data cnt} n {cnt}"
+      | fuel + 1 =>
+        match Sort.Heap.pop le data cnt with
+        | .panic => "panic"
+        | .fail _ buf c' => s!"fail popped {showInts acc.reverse} len {buf.length} drained {drain buf c'} n {c'}"
+        | .ok (none, d') c' => s!"ok popped {showInts acc.reverse} len {d'.length} drained {drain d' c'} n {c'}"
+        | .ok (some x, d') c' => go fuel d' (x :: acc) c'
+    go n data [] cnt
+
 end Ord
 
 def ordEngine (f : String) (args : List String) : String :=
@@ -131,6 +155,10 @@ def ordEngine (f : String) (args : List String) : String :=
     match d.toInt?, k.toInt?, Ord.parseInts xs with
     | some d, some k, some xs => if d ≥ 1 then Ord.showLRes (Sort.trySort (Ord.ltKey d k) xs) else "bad-op"
     | _, _, _ => "bad-op"
+  | "heap", [d, k, dec, n, xs] =>
+    match d.toInt?, k.toInt?, n.toNat?, Ord.parseInts xs with
+    | some d, some k, some n, some xs => if d ≥ 1 then Ord.heapRun d k (dec == "1") n xs else "bad-op"
+    | _, _, _, _ => "bad-op"
   | "derive", [op, a, b] =>
     match Ord.parseV a.toList, Ord.parseV b.toList with
     | some (va, []), some (vb, []) => Ord.deriveOp op va vb
